@@ -89,6 +89,12 @@ pub enum Op {
     DepositWithdraw {
         amounts: [u128; 2],
     },
+    /// hostile: the token-factory entry point WithdrawLiquidity {} called directly with `amount`
+    /// of some native coin attached (coin 0/1/2 = pool asset denoms uaaa/ubbb/uccc, 3 = ujunk)
+    WithdrawDirect {
+        coin: usize,
+        amount: u128,
+    },
     /// multi-hop swap through the router: path over assets 0-1-2 (indices), e.g. [0,1,2]
     Router {
         path: Vec<usize>,
@@ -459,7 +465,7 @@ impl Scenario for Pool2 {
         // genesis native balances
         let mut bals: Vec<(&str, Vec<Coin>)> = vec![];
         for u in USERS.iter().take(n) {
-            let mut cs = vec![];
+            let mut cs = vec![coin(1_000_000, "ujunk")];
             for i in 0..3 {
                 if cfg.kinds[i] == Kind::Native {
                     cs.push(coin(cfg.user_funds[i], denoms[i]));
